@@ -453,8 +453,124 @@ def done_conditions(ctx, n):
                            'waiter to continue in the same time step' % (how, form, log), family='done-conditions')
 
 
+def derived_connectives(ctx, n):
+    """condition objects are values: deriving a longer chain from a kept connective (`ab = a & b; abc = ab & c`,
+    `ab |= ...` never happens in place) leaves the shorter one what it was - every kept expression evaluates like the
+    boolean formula it was built as, on every assignment of its flags, and a waiter of the shorter one resumes when ITS
+    formula holds"""
+    import itertools
+    import usim
+    from usim import time
+    from harness import watch
+    rng = ctx.rng
+    for _ in range(n):
+        op = rng.choice(['and', 'or'])
+        k = rng.choice([3, 4])
+        case = {'derived_connectives': dict(op=op, flags=k)}
+        flags = [usim.Flag() for _ in range(k)]
+        chain = [flags[0]]
+        for f in flags[1:]:
+            chain.append((chain[-1] & f) if op == 'and' else (chain[-1] | f))     # chain[i] = f0 op ... op fi, all kept
+        bad, log = [], []
+
+        async def waiter(i):
+            await chain[i]
+            log.append((i, time.now))
+
+        async def main():
+            for vals in itertools.product([False, True], repeat=k):
+                for f, v in zip(flags, vals):
+                    await f.set(v)
+                for i in range(1, k):
+                    want = all(vals[:i + 1]) if op == 'and' else any(vals[:i + 1])
+                    if bool(chain[i]) != want or bool(~chain[i]) == want:
+                        bad.append((vals, i, bool(chain[i]), want))
+            for f in flags:
+                await f.set(False)
+            # waiters: the prefix of length 2 must resume when ITS formula holds, whatever the longer chains need
+            async with usim.Scope() as scope:
+                scope.do(waiter(1))
+                scope.do(waiter(k - 1))
+                await (time + 1)
+                await flags[0].set()
+                if op == 'and':
+                    await (time + 1)
+                    await flags[1].set()
+                await (time + 3)
+                for f in flags:
+                    await f.set()
+        try:
+            watch.run(main())
+        except BaseException as e:   # noqa
+            ctx.fail(case, 'raised %r' % (e,), family='derived-connectives')
+            continue
+        ctx.count(case, nontrivial=True)
+        ctx.bump('family:derived-connectives')
+        t_short = 2 if op == 'and' else 1
+        want_log = [(1, t_short), (k - 1, 5 if op == 'and' else 1)] if k - 1 != 1 else [(1, t_short)] * 2
+        if bad or sorted(log) != sorted(want_log):
+            ctx.fail(case, 'chains f0 %s f1 %s ... built one from the other and all kept: wrong truth values %r (assignment, '
+                           'prefix, observed, formula); waiters of the prefixes resumed at %r, expected %r'
+                     % (op, op, bad[:3], sorted(log), sorted(want_log)), family='derived-connectives')
+
+
+def stale_dates_in_connectives(ctx, n):
+    """a date condition that can no longer hold (`time == past`, `time < now`) inside `|` / `&`: the waiter is parked until
+    the OTHER side decides - it resumes exactly when the flag is set (`|`), never (`&`), and the clock goes on meanwhile"""
+    import usim
+    from usim import time
+    from harness import watch
+    rng = ctx.rng
+    for _ in range(n):
+        past, now0, later = rng.choice([1, 3, 5]), rng.choice([6, 7]), rng.choice([9, 10, 12])
+        dead = rng.choice(['moment', 'before'])
+        op = rng.choice(['or', 'or', 'and'])
+        flip = rng.random() < 0.5
+        case = {'stale_date_in_connective': dict(kind=dead, date=past, awaited_at=now0, flag_set_at=later, op=op, date_first=not flip)}
+        log = []
+
+        async def waiter(flag):
+            await (time + now0)
+            d = (time == past) if dead == 'moment' else (time < past)
+            if op == 'or':
+                cond = (flag | d) if flip else (d | flag)
+            else:
+                cond = (flag & d) if flip else (d & flag)
+            await cond
+            log.append(('resumed', time.now))
+
+        async def other():
+            for t in range(1, later + 3):
+                await (time + 1)
+                log.append(('tick', time.now))
+
+        async def main():
+            flag = usim.Flag()
+            async with usim.Scope() as scope:
+                scope.do(waiter(flag), volatile=True)
+                scope.do(other())
+                await (time + later)
+                await flag.set()
+        try:
+            watch.run(main(), seconds=10)
+        except BaseException as e:   # noqa
+            ctx.fail(case, 'raised %r after %r' % (e, log[-4:]), family='stale-dates')
+            continue
+        ctx.count(case, nontrivial=True)
+        ctx.bump('family:stale-dates')
+        ticks = [x for x in log if x[0] == 'tick']
+        res = [x for x in log if x[0] == 'resumed']
+        want = [('resumed', later)] if op == 'or' else []
+        if res != want or [t for _, t in ticks] != list(range(1, later + 3)):
+            ctx.fail(case, 'await of (%s %s flag) at %r with the flag set at %r: the waiter resumed at %r (expected %r), the other '
+                           'activity ticked at %r' % ('time == %d' % past if dead == 'moment' else 'time < %d' % past, op, now0, later,
+                                                      res, want, [t for _, t in ticks]), family='stale-dates')
+
+
 def run(ctx):
+    stale_dates_in_connectives(ctx, ctx.n(20, 200))
     done_conditions(ctx, ctx.n(40, 400))
+    derived_connectives(ctx, ctx.n(10, 60))
     machine_prop.run(ctx, FAMILIES, MONITORS, extra_scenarios=revert_family(ctx.rng, ctx.n(80, 1500)) +
                      abandoned_setters(ctx.rng, ctx.n(40, 800)))
     # condition objects used by several simulations in a row / by a nested one (the family lives in C01)
